@@ -433,6 +433,8 @@ func main() {
 			only = os.Args[i]
 		case "--keep":
 			keep = true
+		case "--cross":
+			crossCheck = true
 		case "--mutant":
 			i++
 			mutantPatch = os.Args[i]
@@ -471,6 +473,25 @@ func main() {
 }
 
 var mutantPatch string
+
+// crossCheck (--cross): every job that uses the happens-before state cache is run a second time
+// without it (plain deviation bounding, same bound); when both runs completed their bound, the sets
+// of distinct outcomes and of violation keys must be equal - the cache may only remove duplicates.
+var crossCheck bool
+
+func outcomeSet(r *reg.Result) (string, int) {
+	var ks []string
+	for k := range r.Outcomes {
+		ks = append(ks, k)
+	}
+	sort.Strings(ks)
+	var vs []string
+	for _, v := range r.Violations {
+		vs = append(vs, v.Key)
+	}
+	sort.Strings(vs)
+	return fmt.Sprintf("%x", sha1.Sum([]byte(strings.Join(ks, "\x00")+"\x01"+strings.Join(vs, "\x00")))), len(ks)
+}
 
 // applyMutant applies a patch to a scratch copy of the repository's Go files and registers every
 // changed file as a substitution, so that /repo itself is never modified.
@@ -571,6 +592,45 @@ func check(id, tier, only string) int {
 		need[j.Build] = true
 	}
 	results := runJobs(meta, tier, only)
+	if crossCheck {
+		var cached propMeta = meta
+		cached.Jobs = nil
+		for _, j := range meta.Jobs {
+			if j.Args["cache"] == "1" {
+				cached.Jobs = append(cached.Jobs, j)
+			}
+		}
+		os.Setenv("VERIF_NOCACHE", "1")
+		plain := runJobs(cached, tier, only)
+		os.Unsetenv("VERIF_NOCACHE")
+		byLabel := map[string]*jobResult{}
+		for _, jr := range results {
+			byLabel[jr.Job.Label] = jr
+		}
+		compared, skipped, bad := 0, 0, 0
+		for _, p := range plain {
+			c := byLabel[p.Job.Label]
+			if c == nil || c.Merged == nil || p.Merged == nil {
+				continue
+			}
+			if !c.Merged.Exhaustive || !p.Merged.Exhaustive {
+				skipped++
+				continue
+			}
+			compared++
+			hc, nc := outcomeSet(c.Merged)
+			hp, np := outcomeSet(p.Merged)
+			if hc != hp {
+				bad++
+				fmt.Printf("CROSS-CHECK MISMATCH job %q: %d distinct outcomes with the state cache, %d without (%d vs %d executions)\n", p.Job.Label, nc, np, c.Merged.Evaluations, p.Merged.Evaluations)
+			}
+		}
+		fmt.Printf("cross-check of the state cache against plain deviation bounding: %d jobs compared (equal outcome and violation-key sets required), %d skipped (a run did not complete its bound), %d mismatches\n", compared, skipped, bad)
+		if bad > 0 {
+			cleanup()
+			os.Exit(2)
+		}
+	}
 
 	kn := loadKnown()
 	exit := 0
